@@ -22,8 +22,9 @@ def rotate_2d(v : Vec, angle : float) -> Vec:
 def rotate_around_axis(inp : Vec, _axis : Vec, angle : float) ->  Vec:
     c,s = math.cos(angle), math.sin(angle)
     inp = Vec(inp)
+    _axis = Vec(_axis)
+    if abs(angle)<1E-12 or _axis.norm()<1E-12: return inp
     axis = Vec.normalized(_axis)
-    if abs(angle)<1E-12 or axis.norm()<1E-12: return inp
     out = Vec(0.,0.,0.)
     u,v,w = axis
     out.x = (c + u*u*(1-c))   * inp.x + (u*v*(1-c) - w*s) * inp.y + (u*w*(1-c) + v*s) * inp.z
